@@ -52,6 +52,13 @@ def _forall(i, body, pats):
         return z3.ForAll([i], body)
 
 
+def IMP(a, b):
+    """Implication whose consequent (possibly a thunk) is not even built when the antecedent is concretely false."""
+    if isinstance(a, bool):
+        return speclib._force(b) if a else True
+    return IMPLIES(a, b)
+
+
 def SAME(a, b):
     """`a is b` (objects) / equal immutable values."""
     if smt():
@@ -305,6 +312,29 @@ class _RDFSpec:
     fields = {}
 
 
+DSDLFILE = "pydsdl._dsdl.DSDLFile"
+
+
+def FILE_PATH(d):
+    """The file path of a definition (ghost function of the definition object; a Path, compared as a value)."""
+    if smt():
+        from pyvc.values import RefSort
+
+        return speclib.CTX.engine.uf("ghost!file_path", RefSort, z3.StringSort())(d.ref)
+    return d.file_path
+
+
+for _cls in (DSDLFILE, RDF):
+    @contract(_cls + ".file_path", props=P17)
+    class _FilePathIface:
+        returns = Str
+        verify = False
+        assumed = "interface: the file path of a definition is a fixed attribute of the definition object"
+
+        def post(s):
+            return {"file-path": EQ(s.result, FILE_PATH(s.self))}
+
+
 @class_spec(DTB)
 class _DTBSpec:
     fields = dict(
@@ -549,6 +579,186 @@ class _OnPaddingField:
         out = {"exactly-this-statement-pending": pending_is(s.self, T_PAD, s.padding_field_type), "wf": WF(s.self)}
         out.update(commit_clauses(s, ""))
         return out
+
+
+def sections_content_same(new, old):
+    """No attribute committed, no doc changed: the lists and docs of all sections are what they were."""
+    ns_, os_ = SECS(new), SECS(old)
+    return AND(len(ns_) == len(os_), *[AND(SEQ_SAME(a._fields, b._fields), SEQ_SAME(a._constants, b._constants),
+                                          EQ(a._doc, b._doc), SAME(a.ref if smt() else a, b.ref if smt() else b))
+                                      for a, b in zip(ns_, os_)])
+
+
+def dsb_is_empty(b):
+    return AND(LEN(b._fields) == 0, LEN(b._constants) == 0, IS_NONE(b._serialization_mode), NOT(b._is_union),
+               NOT(b._bit_length_computed_at_least_once), EQ(b._doc, ""))
+
+
+@contract(DTB + ".on_service_response_marker", props=P)
+class _OnMarker:
+    instances = _TWO_SECTION_INSTANCES
+    raises = {"InvalidDefinitionError": lambda s: len(SECS(s.old)) > 1}
+    havoc = lambda s: [(s.self, "_structs", ListK(MutObjOf(DSB), MutObjOf(DSB)))]
+
+    def pre(s):
+        # protocol: the caller flushes first - a statement still pending here would be committed into the response section
+        return {"no-pending-attribute": NO_PENDING(s.self), "wf": WF(s.self)}
+
+    def post(s):
+        new_secs, old_secs = SECS(s.self), SECS(s.old)
+        return {"two-sections": len(new_secs) == 2,
+                "request-section-kept": AND(SAME(new_secs[0].ref if smt() else new_secs[0],
+                                                 old_secs[0].ref if smt() else old_secs[0]),
+                                            dsb_unchanged(new_secs[0], old_secs[0])),
+                "response-section-empty": dsb_is_empty(new_secs[-1]),
+                "still-nothing-pending": NO_PENDING(s.self),
+                "deprecated-unchanged": EQ(s.self._is_deprecated, s.old._is_deprecated)}
+
+
+# ---- directives
+DIRECTIVE_NAMES = ["print", "assert", "extent", "sealed", "union", "deprecated"]
+
+
+class _OtherName(type(Str)):
+    """A directive name that is none of the known ones."""
+
+    def build(self, ctx, mk):
+        t = mk("", z3.StringSort())
+        ctx.assume(z3.And(*[t != z3.StringVal(n) for n in DIRECTIVE_NAMES]))
+        return t
+
+    def __repr__(self):
+        return "other-name"
+
+
+def STR_OF(v):
+    """str(v) of an expression value."""
+    if smt():
+        return speclib.CTX.engine.lib.bi_str(speclib.CTX, v)
+    return str(v)
+
+
+def _dir_instances():
+    out = []
+    for secs in (ListK(MutObjOf(DSB)), ListK(MutObjOf(DSB), MutObjOf(DSB))):
+        for n in DIRECTIVE_NAMES + [_OtherName()]:
+            out.append({"self._structs": secs, "directive_name": n})
+    return out
+
+
+def _known(name):
+    return isinstance(name, str) and name in DIRECTIVE_NAMES
+
+
+def _is(name, which):
+    return isinstance(name, str) and name == which
+
+
+def _has_attributes(sec):
+    return LEN(sec._fields) + LEN(sec._constants) > 0
+
+
+def _val(s):
+    return s.associated_expression_value
+
+
+def _val_isinst(s, clsname):
+    v = _val(s)
+    if smt():
+        if isinstance(v, OptV):
+            return AND(NOT(speclib._b(v.is_none)), ISINST(v.val, clsname))
+        if v is None:
+            return False
+    return ISINST(v, clsname)
+
+
+BOOLEAN_XQ = "pydsdl._expression._primitive.Boolean"
+RATIONAL_XQ = "pydsdl._expression._primitive.Rational"
+
+
+def _bool_value(s):
+    v = VAL(_val(s))
+    return speclib.AS(v, BOOLEAN_XQ)._value
+
+
+def _directive_rejected(s):
+    """The misuse rules of the directives (from the in-code messages / Specification 3.6): when InvalidDirectiveError."""
+    n, old = s.directive_name, s.old
+    cur = CUR(old)
+    none = IS_NONE(_val(s))
+    if not _known(n):
+        return True
+    if n == "print":
+        return False
+    if n == "assert":
+        return OR(none, NOT(_val_isinst(s, BOOLEAN_XQ)))
+    if n == "extent":
+        return OR(NOT(IS_NONE(cur._serialization_mode)), none, NOT(_val_isinst(s, RATIONAL_XQ)))
+    if n == "sealed":
+        return OR(NOT(IS_NONE(cur._serialization_mode)), NOT(none))
+    if n == "union":
+        return OR(NOT(none), cur._is_union, _has_attributes(cur))
+    if n == "deprecated":
+        return OR(NOT(none), old._is_deprecated, len(SECS(old)) > 1, _has_attributes(cur))
+    raise AssertionError(n)
+
+
+def _calls(b):
+    h = b._print_output_handler
+    if smt():
+        return h.calls.items
+    return h.calls
+
+
+@contract(DTB + ".on_directive", props=P17)
+class _OnDirective:
+    params = dict(line_number=Int, directive_name=Str, associated_expression_value=Opt(ObjOf(ANY)))
+    instances = _dir_instances
+    havoc = lambda s: [(s.self, "_is_deprecated"), (CUR(s.self), "_is_union"), (CUR(s.self), "_serialization_mode")]
+    raises = {
+        "AssertionCheckFailureError": lambda s: AND(_is(s.directive_name, "assert"), lambda: _val_isinst(s, BOOLEAN_XQ),
+                                                    lambda: NOT(_bool_value(s))),
+        "InvalidDirectiveError": _directive_rejected,
+        "InvalidOperandError": None,  # @extent with a non-integral rational (Rational.as_native_integer, C04)
+    }
+
+    def pre(s):
+        # protocol: the caller flushes first (`attributes` does not see a pending statement: @union / @deprecated
+        # "before the first attribute" would otherwise be accepted after one)
+        return {"no-pending-attribute": NO_PENDING(s.self), "wf": WF(s.self)}
+
+    def post(s):
+        n = s.directive_name
+        cn, co = CUR(s.self), CUR(s.old)
+        new_calls, old_calls = _calls(s.self), _calls(s.old)
+        out = {
+            "no-attribute-moves": sections_content_same(s.self, s.old),
+            "still-nothing-pending": NO_PENDING(s.self),
+            "computed-flag-kept": AND(*[EQ(a._bit_length_computed_at_least_once, b._bit_length_computed_at_least_once)
+                                        for a, b in zip(SECS(s.self), SECS(s.old))]),
+            "other-sections-untouched": AND(*[dsb_unchanged(a, b) for a, b in zip(SECS(s.self)[:-1], SECS(s.old)[:-1])]),
+            "union-flag": IFF(cn._is_union, OR(co._is_union, _is(n, "union"))),
+            "deprecated-flag": IFF(s.self._is_deprecated, OR(s.old._is_deprecated, _is(n, "deprecated"))),
+            "mode-kept-unless-set": IMP(not (_is(n, "sealed") or _is(n, "extent")),
+                                            lambda: SAME(cn._serialization_mode, co._serialization_mode)),
+            "sealed": IMP(_is(n, "sealed"), lambda: ISINST(VAL(cn._serialization_mode), "SealedSerializationMode")),
+            "delimited": IMP(_is(n, "extent"), lambda: ISINST(VAL(cn._serialization_mode), "DelimitedSerializationMode")),
+            # C17: @print output is delivered exactly once per evaluated directive, with the line of that directive
+            "print-delivered-exactly-once": (len(new_calls) == len(old_calls) + (1 if _is(n, "print") else 0)),
+            "print-carries-line-and-text": IMP(_is(n, "print"), lambda: AND(
+                len(new_calls[-1]) == 2, EQ(new_calls[-1][0], s.line_number),
+                EQ(new_calls[-1][1], ITE(IS_NONE(_val(s)), "", lambda_free_str(s))))),
+        }
+        return out
+
+
+def lambda_free_str(s):
+    v = _val(s)
+    if smt():
+        if isinstance(v, OptV):
+            return STR_OF(v.val)
+        return STR_OF(v) if v is not None else ""
+    return str(v) if v is not None else ""
 
 
 # ------------------------------------------------------------------------------------------------ native harness
